@@ -130,6 +130,7 @@ pub fn check(case: &Case, l: &mut Local) -> Verdict {
     use regress::backends as rbe;
     let re_noopt = compile(&case.pat, fl, true).ok();
     let mut ms: Vec<regress::Match> = vec![];
+    let mut producer: Vec<&str> = vec![];
     let mut per_source: Vec<(&str, Vec<(usize, usize)>)> = vec![];
     let lim = h.len() + 2;
     for src_id in 0..8 {
@@ -156,6 +157,7 @@ pub fn check(case: &Case, l: &mut Local) -> Verdict {
             return Verdict::Skip("cut_by_fuel");
         }
         per_source.push((name, v.iter().map(|m| (m.start(), m.end())).collect()));
+        producer.extend(std::iter::repeat(name).take(v.len()));
         ms.extend(v);
     }
     let _ = per_source;
@@ -168,7 +170,22 @@ pub fn check(case: &Case, l: &mut Local) -> Verdict {
             distinct.push(nm);
         }
     }
-    for m in &ms {
+    for (mi, m) in ms.iter().enumerate() {
+        let verdict = check_match(m, h, n, &names, &distinct, l, &mut nontrivial);
+        if let Verdict::Fail(msg) = verdict {
+            return Verdict::Fail(format!("[Match from {}] {}", producer.get(mi).copied().unwrap_or("?"), msg));
+        }
+    }
+    if !ms.is_empty() {
+        l.class("matched");
+    }
+    return Verdict::Pass { nontrivial };
+}
+
+#[allow(clippy::too_many_arguments)]
+fn check_match(m: &regress::Match, h: &str, n: usize, names: &[String], distinct: &[&String], l: &mut Local, nontrivial_out: &mut bool) -> Verdict {
+    let mut nontrivial = false;
+    {
         if m.captures.len() != n {
             return Verdict::Fail(format!("captures.len() = {} but the pattern has {} capturing groups", m.captures.len(), n));
         }
@@ -219,7 +236,7 @@ pub fn check(case: &Case, l: &mut Local) -> Verdict {
         let ng: Vec<(String, Cap)> = m.named_groups().map(|(k, v)| (k.to_string(), rng(v))).collect();
         let mut expect: Vec<(String, Cap)> = vec![];
         let mut unset = false;
-        for nm in &distinct {
+        for nm in distinct {
             let parts: Vec<Cap> = names.iter().enumerate().filter(|(_, x)| x == nm).map(|(i, _)| rng(m.captures[i].clone())).filter(|c| c.is_some()).collect();
             if parts.len() > 1 {
                 return Verdict::Fail(format!("two groups named {} participate in one match: {:?}", nm, parts));
@@ -251,9 +268,7 @@ pub fn check(case: &Case, l: &mut Local) -> Verdict {
             l.class("match_with_duplicate_names");
         }
     }
-    if !ms.is_empty() {
-        l.class("matched");
-    }
+    *nontrivial_out |= nontrivial;
     Verdict::Pass { nontrivial }
 }
 
